@@ -265,7 +265,7 @@ def reorderGlyphs(font: ttLib.TTFont, new_glyph_order: List[str]):
 
     font.setGlyphOrder(new_glyph_order)
 
-    coverage_containers = {"GDEF", "GPOS", "GSUB", "MATH"}
+    coverage_containers = {"GDEF", "GPOS", "GSUB", "JSTF", "MATH"}
     for tag in coverage_containers:
         if tag in font.keys():
             for path in _bfs_base_table(font[tag].table, f'font["{tag}"]'):
